@@ -1577,6 +1577,418 @@ SPECS = [
 ]
 
 
+# ====================================================================== python mirrors of the MODEL
+# (hand-written from Model/Extent.v, Model/Field.v, Model/Geometry.v; same argument and value conventions as the
+#  compiled translated terms: tuples, a slice is (start, stop), option = None | value, result = ('ok', v) | ('err', kind))
+def _m_array_extent(sr, sc, shr, shc):
+    rmin = -(sr // 2) + shr
+    cmin = -(sc // 2) + shc
+    return (rmin, rmin + sr - 1, cmin, cmin + sc - 1)
+
+
+def _m_center(e):
+    rmin, rmax, cmin, cmax = e
+    return (rmin + (rmax - rmin + 1) // 2, cmin + (cmax - cmin + 1) // 2)
+
+
+def _m_iext(a, b):
+    return (max(a[0], b[0]), min(a[1], b[1]), max(a[2], b[2]), min(a[3], b[3]))
+
+
+def _m_ishape(a, b):
+    r0, r1, c0, c1 = _m_iext(a, b)
+    n, m = r1 - r0 + 1, c1 - c0 + 1
+    return None if (n <= 0 or m <= 0) else (n, m)
+
+
+def _m_islices(a, b):
+    r0, r1, c0, c1 = _m_iext(a, b)
+    return (((r0 - a[0], r1 - a[0] + 1), (c0 - a[2], c1 - a[2] + 1)),
+            ((r0 - b[0], r1 - b[0] + 1), (c0 - b[2], c1 - b[2] + 1)))
+
+
+_MAXSIZE = 9223372036854775807
+
+
+def _m_bstep(acc, e):
+    return (e[0] if e[0] < acc[0] else acc[0], e[1] if e[1] > acc[1] else acc[1],
+            e[2] if e[2] < acc[2] else acc[2], e[3] if e[3] > acc[3] else acc[3])
+
+
+def _m_reconcile(R, h, ul):
+    f_lo, f_hi, o_lo, o_hi = 0, h, ul, ul + h
+    if o_lo < 0:
+        f_lo, o_lo = -o_lo, 0
+    if o_hi > R:
+        f_hi, o_hi = f_hi - (o_hi - R), R
+    return o_lo, o_hi, f_lo, f_hi
+
+
+def _m_insert_clip(fshape, foffset, oshape):
+    cr = _m_reconcile(oshape[0], fshape[0], oshape[0] // 2 - fshape[0] // 2 + foffset[0])
+    cc = _m_reconcile(oshape[1], fshape[1], oshape[1] // 2 - fshape[1] // 2 + foffset[1])
+    if not (cr[0] < cr[1]) or not (cc[0] < cc[1]):
+        return None
+    return (((cr[0], cr[1]), (cc[0], cc[1])), ((cr[2], cr[3]), (cc[2], cc[3])))
+
+
+def _m_pad_axis(n, N):
+    if N - n <= 0:
+        return (n // 2 - N // 2, n // 2 - N // 2 + N, 0, N)
+    return (0, n, N // 2 - n // 2, N // 2 - n // 2 + n)
+
+
+def _m_subarray(ash, shape, shift):
+    rmin = ash[0] // 2 - shape[0] // 2 + shift[0]
+    cmin = ash[1] // 2 - shape[1] // 2 + shift[1]
+    if rmin < 0 or cmin < 0 or rmin + shape[0] > ash[0] or cmin + shape[1] > ash[1]:
+        return ('err', 'ValueError')
+    return ('ok', (rmin, rmin + shape[0], cmin, cmin + shape[1]))
+
+
+MIRROR = {
+    'array_extent': lambda shape, shift: _m_array_extent(shape[0], shape[1], shift[0], shift[1]),
+    'array_extent_0d': lambda shift: _m_array_extent(1, 1, shift[0], shift[1]),
+    'array_extent_parent': lambda shape, shift, par: (lambda e: (e[0] + par[0] // 2, e[1] + par[0] // 2,
+                                                                 e[2] + par[1] // 2, e[3] + par[1] // 2))(
+        _m_array_extent(shape[0], shape[1], shift[0], shift[1])),
+    'array_center': _m_center,
+    'intersect': lambda a, b: a[0] <= b[1] and a[1] >= b[0] and a[2] <= b[3] and a[3] >= b[2],
+    'intersection_extent': _m_iext,
+    'intersection_shape': _m_ishape,
+    'intersection_slices': _m_islices,
+    'intersection_shift': lambda a, b: _m_center(_m_iext(a, b)),
+    'field_boundary': lambda es: functools.reduce(_m_bstep, es, (_MAXSIZE, -_MAXSIZE, _MAXSIZE, -_MAXSIZE)),
+    'merge_offset': _m_center,
+    'merge_shape': lambda b, s: None if s else (b[1] - b[0] + 1, b[3] - b[2] + 1),
+    'insert_clip': _m_insert_clip,
+    'slice_offset': lambda sl, shape: (sl[0][0] + (sl[0][1] - sl[0][0]) // 2 - shape[0] // 2,
+                                       sl[1][0] + (sl[1][1] - sl[1][0]) // 2 - shape[1] // 2),
+    'boundary_slice': lambda xs, pad, b: ((max(b[0] - pad[0], 0), min(b[1] + pad[0] + 1, xs[0])),
+                                          (max(b[2] - pad[1], 0), min(b[3] + pad[1] + 1, xs[1]))),
+    'pad_bounds': lambda ash, shape: _m_pad_axis(ash[0], shape[0]) + _m_pad_axis(ash[1], shape[1]),
+    'pad_bounds_3d': lambda ash, shape: _m_pad_axis(ash[1], shape[0]) + _m_pad_axis(ash[2], shape[1]),
+    'subarray_bounds': _m_subarray,
+}
+
+
+# ====================================================================== drivers: the RUNNING code on the same arguments
+SKIP = ('skip',)      # the instance cannot be exercised through the running code for these arguments
+
+
+def _ints(t):
+    return tuple(int(x) for x in t)
+
+
+def _sl(s):
+    return (int(s.start), int(s.stop))
+
+
+def _trace_locals(fn, codename, filename_end, *args, **kw):
+    """run fn(*args); -> (locals of the frame of `codename` at its return | None, result | exception)"""
+    box = {}
+
+    def tracer(frame, event, arg):
+        co = frame.f_code
+        if event == 'call':
+            if co.co_name == codename and co.co_filename.endswith(filename_end) and 'frame' not in box:
+                box['frame'] = frame
+                return local
+            return None
+        return None
+
+    def local(frame, event, arg):
+        if event == 'return' and frame is box.get('frame'):
+            box['locals'] = dict(frame.f_locals)
+        return local
+
+    old = sys.gettrace()
+    sys.settrace(tracer)
+    try:
+        try:
+            r = fn(*args, **kw)
+        except Exception as e:      # noqa: BLE001 - reported to the caller
+            r = e
+    finally:
+        sys.settrace(old)
+    return box.get('locals'), r
+
+
+def _stub(**kw):
+    import types
+    return types.SimpleNamespace(**kw)
+
+
+def _drv_insert_clip(L, fshape, foffset, oshape):
+    import numpy as np
+    if min(fshape) < 1 or min(oshape) < 1 or max(fshape) > 64 or max(oshape) > 64:
+        return SKIP
+    f = L.field.Field(np.ones(fshape), offset=list(foffset))
+    loc, r = _trace_locals(L.field.insert, 'insert', 'lentil/field.py', f, np.zeros(oshape, dtype=complex))
+    if loc is None:
+        return SKIP
+    if 'out_slice' not in loc:
+        return SKIP if isinstance(r, Exception) else None
+    if loc['out_slice'] is Ellipsis:
+        return SKIP                      # the first branch of insert: the translated block did not run
+    o, fs = loc['out_slice'], loc['field_slice']
+    return ((_sl(o[0]), _sl(o[1])), (_sl(fs[0]), _sl(fs[1])))
+
+
+def _drv_boundary_slice(L, xs, pad, b):
+    import numpy as np
+    n, m = xs
+    if not (0 <= b[0] <= b[1] < n <= 64 and 0 <= b[2] <= b[3] < m <= 64):
+        return SKIP
+    x = np.zeros((n, m))
+    x[b[0], b[2]] = 1
+    x[b[1], b[3]] = 1
+    r = L.helper.boundary_slice(x, 0, tuple(pad))
+    return (_sl(r[0]), _sl(r[1]))
+
+
+def _drv_pad(L, ash, shape):
+    import numpy as np
+    if min(ash) < 0 or min(shape) < 0 or max(ash) > 64 or max(shape) > 64:
+        return SKIP
+    loc, r = _trace_locals(L.util.pad, 'pad', 'lentil/util.py', np.zeros(ash), tuple(shape))
+    if isinstance(r, Exception) or loc is None:
+        return SKIP
+    return tuple(int(loc[k]) for k in ('rmin0', 'rmax0', 'rmin1', 'rmax1', 'cmin0', 'cmax0', 'cmin1', 'cmax1'))
+
+
+def _drv_subarray(L, ash, shape, shift):
+    import numpy as np
+    if min(ash) < 0 or max(ash) > 64:
+        return SKIP
+    loc, r = _trace_locals(L.util.subarray, 'subarray', 'lentil/util.py', np.zeros(ash), tuple(shape), tuple(shift))
+    if isinstance(r, ValueError):
+        return ('err', 'ValueError')
+    if isinstance(r, Exception) or loc is None:
+        return SKIP
+    return ('ok', tuple(int(loc[k]) for k in ('rmin', 'rmax', 'cmin', 'cmax')))
+
+
+def _drv_merge_shape(L, b, scalars):
+    if scalars and tuple(b) != (0, 0, 0, 0):
+        return SKIP                      # _merge_scalars is true only for 0-d fields at the origin
+    r = L.field._merge_shape([_stub(shape=() if scalars else (1, 1), extent=tuple(b))])
+    return None if len(r) == 0 else _ints(r)
+
+
+def _drv_islices(L, a, b):
+    (ar, ac), (br, bc) = L.extent.intersection_slices(a, b)
+    return ((_sl(ar), _sl(ac)), (_sl(br), _sl(bc)))
+
+
+def _drv_ishape(L, a, b):
+    r = L.extent.intersection_shape(a, b)
+    return None if len(r) == 0 else _ints(r)
+
+
+DRIVER = {
+    'array_extent': lambda L, shape, shift: _ints(L.extent.array_extent(tuple(shape), tuple(shift))),
+    'array_extent_0d': lambda L, shift: _ints(L.extent.array_extent((), tuple(shift))),
+    'array_extent_parent': lambda L, shape, shift, par: _ints(L.extent.array_extent(tuple(shape), tuple(shift),
+                                                                                    tuple(par))),
+    'array_center': lambda L, e: _ints(L.extent.array_center(tuple(e))),
+    'intersect': lambda L, a, b: bool(L.extent.intersect(tuple(a), tuple(b))),
+    'intersection_extent': lambda L, a, b: _ints(L.extent.intersection_extent(tuple(a), tuple(b))),
+    'intersection_shape': _drv_ishape,
+    'intersection_slices': _drv_islices,
+    'intersection_shift': lambda L, a, b: _ints(L.extent.intersection_shift(tuple(a), tuple(b))),
+    'field_boundary': lambda L, es: _ints(L.field.boundary([_stub(extent=tuple(e)) for e in es])),
+    'merge_offset': lambda L, b: _ints(L.field._merge_offset([_stub(extent=tuple(b))])),
+    'merge_shape': _drv_merge_shape,
+    'insert_clip': _drv_insert_clip,
+    'slice_offset': lambda L, sl, shape: _ints(L.helper.slice_offset((slice(*sl[0]), slice(*sl[1])), tuple(shape))),
+    'boundary_slice': _drv_boundary_slice,
+    'pad_bounds': _drv_pad,
+    'pad_bounds_3d': _drv_pad,
+    'subarray_bounds': _drv_subarray,
+}
+
+
+# ====================================================================== argument spaces, self-check, witness search
+def _leaves(ty):
+    """number of integer/boolean leaves of an input type, and a builder from a flat list"""
+    k = ty[0]
+    if k in ('Z', 'B'):
+        return [k], (lambda xs: xs[0])
+    if k == 'tuple':
+        parts = [_leaves(t) for t in ty[1]]
+        kinds = [x for p in parts for x in p[0]]
+
+        def build(xs, parts=parts):
+            out, i = [], 0
+            for ks, b in parts:
+                out.append(b(xs[i:i + len(ks)]))
+                i += len(ks)
+            return tuple(out)
+        return kinds, build
+    raise ValueError(ty)
+
+
+_ORDER = [0, 1, -1, 2, -2, 3, -3, 4, -4, 5, -5, 6, -6]
+
+
+def _valid_pref(name, args):
+    """arguments on which the running code can be exercised meaningfully (tried first, so that a witness is
+    replayable through the public API whenever one exists)"""
+    def ext_ok(e):
+        return e[0] <= e[1] and e[2] <= e[3]
+    if name in ('array_center', 'merge_offset'):
+        return ext_ok(args[0])
+    if name in ('intersect', 'intersection_extent', 'intersection_shape', 'intersection_slices',
+                'intersection_shift'):
+        return ext_ok(args[0]) and ext_ok(args[1])
+    if name in ('array_extent', 'array_extent_parent'):
+        return min(args[0]) >= 1 and (len(args) < 3 or min(args[2]) >= 1)
+    if name == 'merge_shape':
+        return ext_ok(args[0]) and (not args[1] or tuple(args[0]) == (0, 0, 0, 0))
+    if name == 'insert_clip':
+        return min(args[0]) >= 1 and min(args[2]) >= 1 and not (tuple(args[0]) == tuple(args[2])
+                                                               and tuple(args[1]) == (0, 0))
+    if name == 'slice_offset':
+        return 0 <= args[0][0][0] < args[0][0][1] <= args[1][0] and 0 <= args[0][1][0] < args[0][1][1] <= args[1][1]
+    if name == 'boundary_slice':
+        b, xs = args[2], args[0]
+        return 0 <= b[0] <= b[1] < xs[0] and 0 <= b[2] <= b[3] < xs[1] and min(args[1]) >= 0
+    if name in ('pad_bounds', 'pad_bounds_3d'):
+        return min(args[0]) >= 1 and min(args[1]) >= 1
+    if name == 'subarray_bounds':
+        return min(args[0]) >= 1 and min(args[1]) >= 0
+    return True
+
+
+def arg_space(info, rng, exhaustive_budget=120000, n_random=4000, wide=40):
+    """argument tuples for one translated function: an exhaustive box [-r, r]^k with the largest r <= 6 that fits
+    the budget (small magnitudes first), then random points of [-6, 6]^k and of [-wide, wide]^k"""
+    import itertools
+    inputs = info['inputs']
+    if any(i['type'][0] == 'list' for i in inputs):           # field_boundary: lists of extents
+        def gen():
+            vals = _ORDER[:7]
+            yield ([],)
+            for e in itertools.product(vals[:5], repeat=4):
+                yield ([e],)
+            for _ in range(n_random * 3):
+                k = rng.randint(0, 4)
+                R = rng.choice([3, 6, wide])
+                yield ([tuple(rng.randint(-R, R) for _ in range(4)) for _ in range(k)],)
+        return gen(), 'all single-extent lists over [-2, 2]^4 and random lists of 0..4 extents'
+    parts = [_leaves(i['type']) for i in inputs]
+    kinds = [x for p in parts for x in p[0]]
+    nz = sum(1 for k in kinds if k == 'Z')
+    nb = len(kinds) - nz
+    r = 6
+    while r > 1 and (2 * r + 1) ** nz * 2 ** nb > exhaustive_budget:
+        r -= 1
+    vals = [v for v in _ORDER if abs(v) <= r]
+
+    def build(flat):
+        out, i = [], 0
+        for ks, b in parts:
+            out.append(b(flat[i:i + len(ks)]))
+            i += len(ks)
+        return tuple(out)
+
+    def gen():
+        for flat in itertools.product(*[(vals if k == 'Z' else [False, True]) for k in kinds]):
+            yield build(list(flat))
+        for R in (6, wide):
+            for _ in range(n_random):
+                yield build([rng.randint(-R, R) if k == 'Z' else rng.random() < 0.5 for k in kinds])
+    return gen(), f'exhaustive [-{r}, {r}]^{nz} then {n_random} random points of [-6, 6]^{nz} and of [-{wide}, {wide}]^{nz}'
+
+
+def find_witness(name, info, pyfunc, rng, exhaustive_budget=120000, n_random=4000):
+    """an argument tuple on which the translated term and the model mirror differ (preferring arguments that
+    can be replayed through the running code), or None; also returns the description of the searched space"""
+    mirror = MIRROR[name]
+    gen, desc = arg_space(info, rng, exhaustive_budget, n_random)
+    fallback = None
+    for args in gen:
+        try:
+            a, b = pyfunc(*args), mirror(*args)
+        except Exception:      # noqa: BLE001
+            continue
+        if a != b:
+            w = {'args': args, 'source': a, 'model': b}
+            if _valid_pref(name, args):
+                return w, desc
+            if fallback is None:
+                fallback = w
+    return fallback, desc
+
+
+def selfcheck(name, info, pyfunc, lentil, rng, n=160):
+    """translated term vs the RUNNING function on sampled arguments: -> (compared, first mismatch | None)"""
+    drv = DRIVER[name]
+    inputs = info['inputs']
+    compared = 0
+    tries = 0
+    while compared < n and tries < 12 * n:
+        tries += 1
+        args = _sample_valid(name, inputs, rng)
+        try:
+            got = drv(lentil, *args)
+        except Exception as e:      # noqa: BLE001
+            got = ('exception', type(e).__name__)
+        if got is SKIP:
+            continue
+        compared += 1
+        want = pyfunc(*args)
+        if got != want:
+            return compared, {'args': args, 'running_code': got, 'translated': want}
+    return compared, None
+
+
+def _sample_valid(name, inputs, rng):
+    """a random argument tuple, biased to the region where the running code can be exercised"""
+    def ext():
+        r0, c0 = rng.randint(-6, 6), rng.randint(-6, 6)
+        if rng.random() < 0.15:
+            return (r0, r0 + rng.randint(-3, 0), c0, c0 + rng.randint(-3, 4))
+        return (r0, r0 + rng.randint(0, 5), c0, c0 + rng.randint(0, 5))
+
+    def shp(lo=1, hi=7):
+        return (rng.randint(lo, hi), rng.randint(lo, hi))
+
+    def off(R=8):
+        return (rng.randint(-R, R), rng.randint(-R, R))
+    if name in ('array_extent', 'array_extent_parent'):
+        a = (shp(-2, 7), off())
+        return a + ((shp(-2, 9),) if name.endswith('parent') else ())
+    if name == 'array_extent_0d':
+        return (off(),)
+    if name in ('array_center', 'merge_offset'):
+        return (ext(),)
+    if name == 'merge_shape':
+        s = rng.random() < 0.2
+        return ((0, 0, 0, 0) if s else ext(), s)
+    if name == 'field_boundary':
+        return ([ext() for _ in range(rng.randint(0, 4))],)
+    if name == 'insert_clip':
+        return (shp(1, 6), off(9), shp(1, 7))
+    if name == 'slice_offset':
+        n, m = shp(1, 9)
+        r0, c0 = rng.randint(-2, n), rng.randint(-2, m)
+        return (((r0, r0 + rng.randint(-1, 6)), (c0, c0 + rng.randint(-1, 6))), (n, m))
+    if name == 'boundary_slice':
+        n, m = shp(1, 8)
+        r0, c0 = rng.randint(0, n - 1), rng.randint(0, m - 1)
+        return ((n, m), (rng.randint(0, 3), rng.randint(0, 3)),
+                (r0, rng.randint(r0, n - 1), c0, rng.randint(c0, m - 1)))
+    if name == 'pad_bounds':
+        return (shp(0, 7), shp(0, 8))
+    if name == 'pad_bounds_3d':
+        return ((rng.randint(0, 3),) + shp(0, 7), shp(0, 8))
+    if name == 'subarray_bounds':
+        return (shp(0, 7), shp(0, 6), off(3))
+    return (ext(), ext())
+
+
 # ====================================================================== driver
 def _parse(repo, rel, cache):
     if rel not in cache:
@@ -1591,6 +2003,15 @@ def _parse(repo, rel, cache):
     return cache[rel]
 
 
+def _funcs_hash(fdefs, names):
+    """sha256 of the parsed definitions (ast.dump, no positions) of the named functions: changes exactly when
+    the code of a whitelisted function changes (not with comments or with the rest of the file)"""
+    h = hashlib.sha256()
+    for n in sorted(names):
+        h.update((n + '=' + (ast.dump(fdefs[n]) if n in fdefs else 'MISSING') + '\n').encode())
+    return h.hexdigest()
+
+
 def _fallback_inputs(spec):
     """the binders of the definition, computed from the spec alone (so that a refused function keeps its type)"""
     namer = Namer()
@@ -1602,9 +2023,20 @@ def _fallback_inputs(spec):
     return inputs
 
 
-def translate_all(repo):
-    """-> dict(text=coq file text, results={name: {...}}, hashes={file: sha256}, pyfuncs={name: callable})"""
-    cache, results, chunks, hashes, pysrc = {}, {}, [], {}, []
+def _compile_py(py):
+    ns = {'_reduce': functools.reduce, 'max': max, 'min': min}
+    exec(compile(py, '<gen_src translated term>', 'exec'), ns)     # our own generated text
+    return ns
+
+
+def translate_all(repo, lentil=None, rng=None):
+    """-> dict(text=coq file text, results={name: {...}}, hashes={file: sha256}, pyfuncs={name: callable}).
+    With `lentil` (the imported package of the same tree) every translated term is first compared with the
+    RUNNING function on sampled arguments; a disagreement means the translator (or the instance the spec
+    assumes) is not faithful for that function, which is then refused like any other."""
+    import random
+    rng = rng or random.Random(0)
+    cache, results, chunks, hashes, pyfuncs = {}, {}, [], {}, {}
     for spec in SPECS:
         name = spec['name']
         try:
@@ -1619,10 +2051,18 @@ def translate_all(repo):
                 raise TranslationRefused(name, 'internal: binder names differ from the declared ones')
             coq = g_def(spec, tr)
             py = p_def(spec, tr)
-            results[name] = {'status': 'translated', 'inputs': tr['inputs'], 'rtype': tr['rtype'], 'py': py,
-                             'doc': spec['doc'], 'file': spec['file'], 'func': spec['func']}
+            info = {'status': 'translated', 'inputs': tr['inputs'], 'rtype': tr['rtype'], 'py': py,
+                    'doc': spec['doc'], 'file': spec['file'], 'func': spec['func']}
+            fn = _compile_py(py)['src_' + name]
+            if lentil is not None:
+                n, bad = selfcheck(name, info, fn, lentil, rng)
+                info['selfcheck_compared'] = n
+                if bad:
+                    raise TranslationRefused(name, 'self-check: the translated term and the running function '
+                                                   f'disagree on {bad}')
+            results[name] = info
+            pyfuncs[name] = fn
             chunks.append(f'(* {spec["file"]}: {spec["doc"]} *)\n{coq}')
-            pysrc.append(py)
         except TranslationRefused as e:
             inputs = _fallback_inputs(spec)
             results[name] = {'status': 'refused', 'reason': e.reason, 'inputs': inputs, 'rtype': spec['rtype'],
@@ -1638,24 +2078,26 @@ def translate_all(repo):
     head = ['(* GENERATED by harness/gen_src.py from the lentil source files on every `./check C06` - do not edit.',
             '   Each src_<f> is the translation of the integer arithmetic of one whitelisted function (see the',
             '   docstring of harness/gen_src.py for the accepted Python and for what an observation entry is).',
-            '   Source files (sha256):']
+            '   Source: sha256 of the parsed definitions (ast.dump) of the whitelisted functions of each file - it',
+            '   changes exactly when their code changes (the sha256 of the whole files is in evidence/C06.json):']
+    fhashes = {}
     for f in sorted(hashes):
-        head.append(f'     {f}  {hashes[f]}')
+        used = {sp['func'] for sp in SPECS if sp['file'] == f} | {x for sp in SPECS if sp['file'] == f
+                                                                  for x in sp.get('inline', ())}
+        fhashes[f] = _funcs_hash(cache[f][1], used)
+        head.append(f'     {f}  {fhashes[f]}  ({" ".join(sorted(used))})')
     head.append('   translated: ' + ' '.join(n for n, r in results.items() if r['status'] == 'translated'))
     head.append('   refused:    ' + (' '.join(n for n, r in results.items() if r['status'] == 'refused') or '-')
                 + ' *)')
     head.append('From LV Require Import Model.Extent Model.Field Model.Geometry.')
     head.append('')
     text = '\n'.join(head) + '\n' + '\n\n'.join(chunks) + '\n'
-    ns = {'_reduce': functools.reduce, 'max': max, 'min': min}
-    exec(compile('\n\n'.join(pysrc), '<gen_src translated terms>', 'exec'), ns)     # our own generated text
-    pyfuncs = {n: ns['src_' + n] for n, r in results.items() if r['status'] == 'translated'}
-    return {'text': text, 'results': results, 'hashes': hashes, 'pyfuncs': pyfuncs}
+    return {'text': text, 'results': results, 'hashes': hashes, 'function_hashes': fhashes, 'pyfuncs': pyfuncs}
 
 
-def write(repo, path):
+def write(repo, path, lentil=None, rng=None):
     """regenerate; the file is rewritten only when its text changes (keeps make quiet)"""
-    res = translate_all(repo)
+    res = translate_all(repo, lentil, rng)
     old = open(path).read() if os.path.exists(path) else None
     res['changed'] = old != res['text']
     if res['changed']:
